@@ -968,3 +968,25 @@ Proof. vm_compute. repeat split; discriminate. Qed.
 Example uq_delete_first_uaf :
   uaf (fst (urun 4096 5 pr_src true false (uq_init 64) [UW 60 true; UW 60 true; UR; UR])) = true.
 Proof. vm_compute. reflexivity. Qed.
+
+(* ------------------------------------------------------------------ the two readable forms of the C09 premise *)
+Corollary uq_no_stall_pow2 maxc pct pr recheck cbd c0 ops n :
+  next_pow2 c0 <= maxc -> cbd = true -> on_drain pr = true -> Forall okop ops -> pow2 maxc ->
+  let s := reach maxc pct pr recheck cbd c0 ops in
+  consumed s = written s -> dirty (nq (getn s (cons s))) = false -> 0 < n -> n <= maxc ->
+  exists off, snd (uq_prepare_write maxc s n) = WSome off.
+Proof.
+  intros Hi Hc Hd Hok [m Hm] s Ha Hdi Hn Hle. subst maxc.
+  apply (uq_no_stall (2 ^ m) pct pr recheck cbd c0 Hi Hc ops n m); auto. lia.
+Qed.
+
+Corollary uq_no_stall_prev_pow2 maxc pct pr recheck cbd c0 ops n :
+  next_pow2 c0 <= maxc -> cbd = true -> on_drain pr = true -> Forall okop ops -> 0 < maxc ->
+  let s := reach maxc pct pr recheck cbd c0 ops in
+  consumed s = written s -> dirty (nq (getn s (cons s))) = false -> 0 < n -> n <= 2 ^ N.log2 maxc ->
+  exists off, snd (uq_prepare_write maxc s n) = WSome off.
+Proof.
+  intros Hi Hc Hd Hok Hm s Ha Hdi Hn Hle.
+  apply (uq_no_stall maxc pct pr recheck cbd c0 Hi Hc ops n (N.log2 maxc)); auto.
+  destruct (N.log2_spec maxc Hm). lia.
+Qed.
